@@ -1,6 +1,8 @@
 """C14 — exported data re-imports to the same dataset: serializer agreement and inverse escape tables (structural)."""
 import re
 from lib import facts as F
+from lib import guards as G
+from lib.taint import Taint
 from lib import pipeline as P14
 from lib import guards as G
 
@@ -358,6 +360,12 @@ def run(R):
              "resets %s on every line)" % ([b[0] for b in breaks], per_line), ok, where=breaks[0][1] if breaks else gt.where(),
              detail=None if ok else "a subject with two predicates is written as `s p1 o1 ;\\n    p2 o2 .`; the loader reads the second line as a new statement "
              "with subject p2: the triple (s p2 o2) is lost and a wrong one may be stored")
+    # ---- R6 decode once
+    R.rule("C14-R6", "a term is decoded once: what a loader's term cleaner returns (IRI without brackets, literal decoded to its lexical value) is "
+                     "stored as it is - it is not handed to a function that interprets surface syntax again (encode_term_star, "
+                     "resolve_query_term, a cleaner, trim); only a value that the same code has just tested to be a quoted triple (`<<`) may "
+                     "go back through the surface-syntax encoder")
+    _decode_once(R)
     # ---- R3
     for nm in ("clean_ntriples_term", "clean_turtle_term"):
         b = R.body("C14-R3", "SparqlDatabase::" + nm, crate="kolibrie")
@@ -372,3 +380,101 @@ def run(R):
 def _it_root(x, op):
     o = x.origin(op, stop_named=True)
     return o[1]["l"] if o[0] == "place" else None
+
+
+def _decode_once(R):
+    prog = R.prog
+    CLEAN = ("clean_ntriples_term", "clean_turtle_term")
+    SURFACE = ("encode_term_star", "resolve_query_term", "clean_ntriples_term", "clean_turtle_term", "decode_ntriples_literal", "add_quad_parts",
+               "trim", "trim_matches", "trim_start_matches", "trim_end_matches")
+    # bodies that call a cleaner, and bodies that receive cleaned values from such a body's result (one hop: parse_*_line -> caller)
+    producers = {}          # body key -> True if it returns cleaned values
+    for b in prog.bodies.values():
+        if b.crate == "kolibrie" and b.file.endswith("sparql_database.rs") and not b.is_closure and any(c.name() in CLEAN for c in b.calls()):
+            T = Taint(prog, b)
+            for x in prog.family(b.key):
+                for c in x.calls():
+                    if c.name() in CLEAN:
+                        T.seed(x, c.dest["l"], "cleaned")
+            T.run()
+            producers[b.key] = "cleaned" in T.get(b, 0)
+    returning = {k for k, v in producers.items() if v}
+    # second hop: functions returning what a returning producer returned (parse_ntriples -> parse_and_encode_ntriples ...)
+    for _ in range(3):
+        for b in prog.bodies.values():
+            if b.crate != "kolibrie" or not b.file.endswith("sparql_database.rs") or b.is_closure or b.key in returning:
+                continue
+            if not any(c.key in returning for x in prog.family(b.key) for c in x.calls()):
+                continue
+            T = Taint(prog, b)
+            for x in prog.family(b.key):
+                for c in x.calls():
+                    if c.key in returning:
+                        T.seed(x, c.dest["l"], "cleaned")
+            T.run()
+            if "cleaned" in T.get(b, 0):
+                returning.add(b.key)
+    nsite = 0
+    for b in sorted(prog.bodies.values(), key=lambda x: x.key):
+        if b.crate != "kolibrie" or not b.file.endswith("sparql_database.rs") or b.is_closure or "::tests::" in b.key:
+            continue
+        fam = prog.family(b.key)
+        srcs = [(x, c) for x in fam for c in x.calls() if c.name() in CLEAN or c.key in returning]
+        # parameters that receive cleaned values (encode_triples(non_encoded_triples))
+        param_src = []
+        if b.name == "encode_triples":
+            param_src = [2]
+        if not srcs and not param_src:
+            continue
+        R.saw(b)
+        T = Taint(prog, b)
+        for x, c in srcs:
+            T.seed(x, c.dest["l"], "cleaned")
+        for i in param_src:
+            T.seed(b, i, "cleaned")
+        T.run()
+        seen_keys = set()
+        for x in fam:
+            for c in x.calls():
+                if c.name() not in SURFACE or not c.args:
+                    continue
+                if c.name() in CLEAN and x.key in producers and c in [cc for xx, cc in srcs]:
+                    pass
+                args = c.args[1:] if c.name() in ("encode_term_star", "resolve_query_term", "clean_ntriples_term", "add_quad_parts") and len(c.args) > 1 else c.args[:1]
+                tainted = [a for a in args if "cleaned" in T.op_taint(x, a)]
+                if not tainted:
+                    continue
+                # a cleaner applied to a raw token is the source itself, not a re-parse: its argument must be tainted by an EARLIER cleaning
+                if c.name() in CLEAN:
+                    continue
+                # guarded by `<that value>.starts_with("<<")`?
+                guarded = True
+                for a in tainted:
+                    root = x.origin(a, stop_named=True)
+                    rl = root[1]["l"] if root[0] == "place" else None
+                    g = False
+                    for cd in G.conditions(x, c.bb):
+                        if cd.get("kind") == "call" and cd["call"].name() == "starts_with" and cd.get("truth") is True and len(cd["call"].args) >= 2:
+                            lit = const_text(cd["call"].args[1])
+                            ro = x.origin(cd["call"].args[0], stop_named=True)
+                            if lit == "<<" and ro[0] == "place" and ro[1]["l"] == rl:
+                                g = True
+                    guarded = guarded and g
+                if not guarded and c.name() == "resolve_query_term":
+                    # names are resolved, literals are not: fine when the call is reached only for a token that does not start with a quote
+                    for cd in G.conditions(x, c.bb):
+                        if cd.get("kind") == "call" and cd["call"].name() == "starts_with" and cd.get("truth") is False and len(cd["call"].args) >= 2:
+                            a1 = cd["call"].args[1]
+                            if const_text(a1) == '"' or str(a1.get("v", "")) == "34" or "'\"'" in str(a1.get("d", "")):
+                                guarded = True
+                if guarded:
+                    continue
+                nsite += 1
+                key = "%s:%s" % (b.name, c.name())
+                if key in seen_keys:
+                    continue
+                seen_keys.add(key)
+                R.ob("C14-R6", "reparse:" + key, "%s does not pass an already cleaned term to %s" % (b.name, c.name()), False, where=x.where(c.ln),
+                     detail="the lexical value is interpreted as surface syntax a second time: surrounding blanks are trimmed, a value that starts with a quote "
+                     "loses it, `<...>` loses its brackets, `prefix:` is expanded - a literal such as `  padded  ` or a single `\"` does not survive export and re-import")
+    R.ob("C14-R6", "scanned", "loader bodies scanned for re-interpretation of cleaned terms (%d flagged call sites)" % nsite, True)
